@@ -11,8 +11,8 @@ use std::collections::HashSet;
 
 use crate::core::cell_info::get_num_children;
 use crate::core::serialization::{
-    cell_to_children, cell_to_parent, get_resolution, get_stride, is_first_child,
-    FIRST_HILBERT_RESOLUTION, MAX_RESOLUTION,
+    cell_to_children, cell_to_parent, deserialize, get_resolution, get_stride, is_first_child,
+    serialize, FIRST_HILBERT_RESOLUTION, MAX_RESOLUTION,
 };
 
 /// Expands a set of A5 cells to a target resolution by generating all descendant cells.
@@ -41,9 +41,13 @@ pub fn uncompact(cells: &[u64], target_resolution: i32) -> Result<Vec<u64>, Stri
     // First calculate how much space is needed
     let mut n = 0;
     let mut resolutions = Vec::with_capacity(cells.len());
+    let mut canonical_cells = Vec::with_capacity(cells.len());
 
     for &cell in cells {
-        let resolution = get_resolution(cell);
+        // Validate the index before sizing the output from it, and drop any stray bits
+        let cell_data = deserialize(cell)?;
+        let resolution = cell_data.resolution;
+        canonical_cells.push(serialize(&cell_data)?);
         let resolution_diff = target_resolution - resolution;
         if resolution_diff < 0 {
             return Err(format!(
@@ -59,7 +63,7 @@ pub fn uncompact(cells: &[u64], target_resolution: i32) -> Result<Vec<u64>, Stri
     // Write directly into pre-allocated vec
     let mut result = Vec::with_capacity(n);
 
-    for (i, &cell) in cells.iter().enumerate() {
+    for (i, &cell) in canonical_cells.iter().enumerate() {
         let resolution = resolutions[i];
         let num_children = get_num_children(resolution, target_resolution);
 
